@@ -10,11 +10,14 @@ CONSTANTS
   Proposable = {"Heartbeat", "Redemption"}
   SignableActions = {"Heartbeat"}
   LeaderFaults = {"silent", "disallowed"}
-  Loss = TRUE
-  Offline = TRUE
+  FaultyWallets = {"w1"}
+  Hazard = "none"
+  Loss = {"w1"}
+  Offline = FALSE
   SeedFailures = FALSE
-  Slow = TRUE
+  Slow = {"w1"}
   Lateness = FALSE
+  AttemptsLimit = 2
   F <- C_F
   ActiveBlocks <- C_ActiveBlocks
   DurationBlocks <- C_DurationBlocks
@@ -25,7 +28,6 @@ CONSTANTS
   PostKind <- C_PostKind
   BroadcastSeconds <- C_BroadcastSeconds
   ClaimEndMargin <- C_ClaimEndMargin
-  AttemptsLimit = 2
   AnnounceDelay <- C_AnnounceDelay
   AnnounceActive <- C_AnnounceActive
   ProtocolBlocks <- C_ProtocolBlocks
@@ -33,4 +35,4 @@ CONSTANTS
   AttemptMaxBlocks <- C_AttemptMaxBlocks
   BlockSeconds = 12
 INVARIANTS TypeOK OnlyMembers ResultsAgreeOnLeader WindowOnce ExecutedOnlyIfDispatched DispatchNeedsResult BusyIffOccupied SameProposal ExecutedWasProposedByLeader FollowersExecuteOnlyAllowed SignatureNeedsQuorumOnSameProposal WindowsCoincide AnnouncementsCoincide SigningWithinDeadline NothingBeforeItsWindow PostStepBounded WindowsDisjoint FaultsSound
-PROPERTIES NoQueue WalletsIndependent
+PROPERTIES NoQueue DroppedStaysDropped WalletsIndependent
